@@ -2,11 +2,160 @@ package pluginw
 
 import (
 	"fmt"
+	"os"
+	"path/filepath"
 	"strings"
 
+	"go.uber.org/thriftrw/compile"
+	"go.uber.org/thriftrw/gen"
+	"go.uber.org/thriftrw/internal/zzsim/ref"
+	"go.uber.org/thriftrw/internal/zzsim/refwire"
 	"go.uber.org/thriftrw/internal/zzsim/simrt"
 	"go.uber.org/thriftrw/internal/zzsim/world"
+	"go.uber.org/thriftrw/internal/zzsim/world/orderw"
+	"go.uber.org/thriftrw/plugin/api"
 )
+
+type refCapture struct{ req *api.GenerateServiceRequest }
+
+func (c *refCapture) Generate(r *api.GenerateServiceRequest) (*api.GenerateServiceResponse, error) {
+	c.req = r
+	return &api.GenerateServiceResponse{}, nil
+}
+
+// referenceRun generates the same program in-process, without any transport,
+// into refOut and captures the request a plugin would be handed.
+func referenceRun(sc *Scenario, env *Env, refOut string) (req *api.GenerateServiceRequest, files map[string]string, err error) {
+	defer func() {
+		if r := recover(); r != nil {
+			err = fmt.Errorf("panic: %v", r)
+		}
+	}()
+	os.RemoveAll(refOut)
+	os.MkdirAll(refOut, 0755)
+	m, err := compile.Compile(filepath.Join(env.Thrift, filepath.FromSlash(sc.Prog.Files[0].RelPath())))
+	if err != nil {
+		return nil, nil, err
+	}
+	cap := &refCapture{}
+	opts := &gen.Options{
+		OutputDir:     refOut,
+		PackagePrefix: "example.com/gen",
+		ThriftRoot:    filepath.Join(env.Root, filepath.FromSlash(thriftRootRel(sc))),
+		NoRecurse:     sc.NoRecurse,
+		OutputFile:    sc.OutputFile,
+		Plugin:        gen.CodeGenerator{ServiceGenerator: cap},
+	}
+	if err := gen.Generate(m, opts); err != nil {
+		return nil, nil, err
+	}
+	return cap.req, world.Snapshot(refOut), nil
+}
+
+// requestOf extracts the GenerateServiceRequest from a sniffed generate frame.
+func requestOf(f FrameRec) (ref.Val, *api.GenerateServiceRequest, error) {
+	body, ok := f.Body.Get(1)
+	if !ok {
+		return ref.Val{}, nil, fmt.Errorf("generate frame has no request field")
+	}
+	var r api.GenerateServiceRequest
+	if err := r.FromWire(refwire.ToWire(body)); err != nil {
+		return body, nil, err
+	}
+	return body, &r, nil
+}
+
+// checkFramesIntact: every plugin that was asked to generate received the same
+// request, the real plugin library decoded exactly what was on the wire, and it
+// equals (up to id numbering) the request of an in-process reference run; on
+// success the core-generated files equal the reference run's.
+func checkFramesIntact(res *world.Result, sc *Scenario, logs []*PlugLog, host *hostResult, env *Env, after map[string]string) {
+	var bodies []ref.Val
+	var names []string
+	var first *api.GenerateServiceRequest
+	for _, l := range logs {
+		for _, f := range l.Recv {
+			if f.Name != "ServiceGenerator:generate" || f.Bad != "" {
+				continue
+			}
+			body, req, err := requestOf(f)
+			if err != nil {
+				res.Failf("C16/frames-intact", "plugin %s received a generate request that does not decode: %v", l.Script.Name, err)
+				return
+			}
+			bodies = append(bodies, body)
+			names = append(names, l.Script.Name)
+			if first == nil {
+				first = req
+			}
+			if l.Script.Conforming && l.GenCalls > 0 && !ref.Equal(l.GenReq, body) {
+				res.Failf("C16/frames-intact", "plugin %s: the plugin library handed its generator %s but the wire carried %s", l.Script.Name, l.GenReq, body)
+			}
+		}
+	}
+	for i := 1; i < len(bodies); i++ {
+		if !ref.Equal(bodies[0], bodies[i]) {
+			res.Failf("C16/frames-intact", "plugins %s and %s received different generate requests", names[0], names[i])
+		}
+	}
+	if first == nil && host.Err != nil {
+		return
+	}
+	refOut := filepath.Join(filepath.Dir(env.Root), "refout")
+	refReq, refFiles, err := referenceRun(sc, env, refOut)
+	defer os.RemoveAll(refOut)
+	if err != nil {
+		if host.Err == nil {
+			res.Notes = append(res.Notes, "reference run failed although the host succeeded: "+err.Error())
+		}
+		return
+	}
+	if first != nil {
+		want, _ := orderw.CanonRequest(refReq)
+		got, _ := orderw.CanonRequest(first)
+		if strings.Join(want, "\n") != strings.Join(got, "\n") {
+			res.Failf("C16/frames-intact", "the generate request on the wire differs from the in-process reference run's: %s", diffStrings(want, got))
+		}
+		res.Count("c16.requests-compared-with-reference", 1)
+	}
+	if host.Err == nil {
+		for p, h := range refFiles {
+			if h == "dir" {
+				continue
+			}
+			if after["out/"+p] != h {
+				res.Failf("C16/output-vs-reference", "core-generated file %s differs from the in-process reference run (or is missing)", p)
+			}
+		}
+		res.Count("c16.outputs-compared-with-reference", 1)
+	}
+}
+
+func diffStrings(a, b []string) string {
+	in := map[string]bool{}
+	for _, x := range b {
+		in[x] = true
+	}
+	var out []string
+	for _, x := range a {
+		if !in[x] {
+			out = append(out, "- "+x)
+		}
+	}
+	in = map[string]bool{}
+	for _, x := range a {
+		in[x] = true
+	}
+	for _, x := range b {
+		if !in[x] {
+			out = append(out, "+ "+x)
+		}
+	}
+	if len(out) > 4 {
+		out = append(out[:4], "...")
+	}
+	return first(strings.Join(out, " | "), 600)
+}
 
 // checkC16 evaluates the plugin-protocol oracles over the recorded history.
 func checkC16(res *world.Result, s *simrt.Sim, sc *Scenario, logs []*PlugLog, host *hostResult, env *Env) {
